@@ -276,6 +276,13 @@ func partC(tier string) []group {
 								}
 								dd := d
 								emit(&Case{Kind: "date", Env: es, Contact: p, Prop: prop, Value: lit.text, Day: &dd, QKind: lit.kind})
+								// the same query parsed under another timezone than it is evaluated in
+								other := "UTC"
+								if es.TZ == "UTC" {
+									other = "Asia/Tokyo"
+								}
+								dd2 := d
+								emit(&Case{Kind: "date", Env: es, Contact: p, Prop: prop, Value: lit.text, Day: &dd2, QKind: lit.kind, ParsedIn: other})
 							}
 							if prop != "created_on" && full {
 								dd := d
